@@ -287,17 +287,14 @@ func open(ctx context.Context, h *Handler, acked bool, s *xmpp.Session, start st
 		iq.Open.BlockSize = blockSize
 	}
 
-	resp, err := s.SendIQ(ctx, iq.TokenReader())
+	// The stream only exists if the peer accepted it: an error reply is returned
+	// as a stanza.Error.
+	err := s.UnmarshalIQ(ctx, iq.TokenReader(), nil)
 	if err != nil {
 		return nil, err
 	}
-	/* #nosec */
-	defer resp.Close()
 
-	conn, err := newConn(h, s, iq, false, MaxBufferSize), nil
-	if err != nil {
-		return nil, err
-	}
+	conn := newConn(h, s, iq, false, MaxBufferSize)
 	h.addStream(sid, conn)
 	return conn, nil
 }
